@@ -1,4 +1,195 @@
+//! kernel-diff: conformance check binding the mc kernel (`mc::world`) to cw-multi-test 2.0.0 by
+//! differential replay of exhaustively enumerated traces (DESIGN.md §4).
+//!
+//! `kernel-diff kernel-diff [--tier quick|thorough]` — exit 0: the two runtimes agreed on every
+//! step of every enumerated trace; exit 2: first disagreement printed (never exit 1: a
+//! disagreement is a machinery error, not a property verdict).
+mod engine;
+mod scenarios;
+mod stubs;
+
+use engine::{fresh_crosscheck, run_scenario, Scenario};
+use mc::explore::RunStats;
+use mc::Report;
+use serde_json::json;
+
+const COMPARED: &str = "after EVERY step of every trace: (1) success/failure of the transaction, (2) the transaction's returned `data` (kernel TxOut.res vs App response data with one MsgExecuteContractResponse protobuf wrapper stripped, as Executor::execute_contract does), (3) every bank balance (all denoms) of every user, recipient and contract address (kernel World.all_balances vs app.wrap().query_all_balances), (4) byte-for-byte the complete raw storage of every contract (kernel World.contracts[addr].store vs App::dump_wasm_raw(addr)), (5) block height/time/chain id. Also compared after every instantiate/setup call.";
+
+const NOT_COMPARED: &str = "events, attributes and error strings (the kernel does not model them); gas; Reply.gas_used / Reply.result events / msg_responses; the protobuf wrapper of the top-level data";
+
 fn main() {
-    eprintln!("kernel-diff: not built yet");
-    std::process::exit(2);
+    mc::world::silence_panics();
+    let a = mc::parse_args();
+    if a.cmd != "kernel-diff" {
+        eprintln!("usage: kernel-diff kernel-diff [--tier quick|thorough]");
+        std::process::exit(2);
+    }
+    let thorough = a.tier == "thorough";
+    let code = match std::panic::catch_unwind(|| run(&a.tier, thorough)) {
+        Ok(c) => c,
+        Err(p) => {
+            eprintln!("machinery error: kernel-diff panicked: {}", mc::world::panic_msg(&p));
+            2
+        }
+    };
+    std::process::exit(code);
+}
+
+fn run(tier: &str, thorough: bool) -> i32 {
+    let only = std::env::var("KDIFF_ONLY").ok();
+    let depth_override: Option<usize> = std::env::var("KDIFF_DEPTH").ok().and_then(|s| s.parse().ok());
+    let mut scs: Vec<Scenario> = scenarios::scenarios(thorough);
+    if let Some(o) = &only {
+        scs.retain(|s| s.name.contains(o.as_str()));
+    }
+    if let Some(d) = depth_override {
+        for s in scs.iter_mut() {
+            s.depth = d;
+        }
+    }
+    let mut rep = Report::new("kernel-diff", tier, "kernel-diff");
+    let mut per = vec![];
+    let mut all_dis = vec![];
+    let (mut traces, mut steps, mut maximal) = (0u64, 0u64, 0u64);
+    let (mut fx_traces, mut fx_steps) = (0u64, 0u64);
+    let mut samples = vec![];
+    for sc in &scs {
+        let r = run_scenario(sc);
+        // cross-check of the snapshot/restore device: all maximal traces of a reduced depth on
+        // fresh runtimes (nothing restored, nothing shared)
+        let fdepth = if sc.depth >= 4 { 3 } else { sc.depth.min(2) };
+        let fdepth = if r.alphabet.len() > 100 { 1 } else { fdepth };
+        let (ft, fs, fd) = if r.disagreements.is_empty() {
+            fresh_crosscheck(sc, fdepth)
+        } else {
+            (0, 0, None)
+        };
+        fx_traces += ft;
+        fx_steps += fs;
+        traces += r.stats.traces;
+        steps += r.stats.steps;
+        maximal += r.stats.maximal_traces;
+        println!(
+            "kernel-diff scenario {:<40} depth={} alphabet={} traces={} (maximal {}) steps={} (+{} fresh-runtime steps) wall={:.1}s {}",
+            sc.name,
+            sc.depth,
+            r.alphabet.len(),
+            r.stats.traces,
+            r.stats.maximal_traces,
+            r.stats.steps,
+            fs,
+            r.wall_s,
+            if r.disagreements.is_empty() && fd.is_none() { "agree" } else { "DISAGREE" }
+        );
+        let mut labels = std::collections::BTreeMap::new();
+        for (l, v) in &r.stats.labels {
+            labels.insert(format!("{}:{}", sc.name.split(':').next().unwrap_or(""), l), *v);
+        }
+        rep.runs.push(RunStats {
+            config: sc.name.clone(),
+            states: r.stats.traces,
+            transitions: r.stats.steps,
+            depth_completed: sc.depth,
+            fixpoint: false,
+            cap_hit: Some(format!("depth bound {}", sc.depth)),
+            labels,
+            found: vec![],
+            known_hits: Default::default(),
+            samples: vec![r.sample.clone()],
+            wall_s: r.wall_s,
+        });
+        samples.push(json!({"scenario": sc.name, "trace": r.sample}));
+        per.push(json!({
+            "scenario": sc.name,
+            "about": sc.about,
+            "depth": sc.depth,
+            "alphabet_size": r.alphabet.len(),
+            "alphabet": if r.alphabet.len() <= 40 { json!(r.alphabet) } else { json!({"first_40": r.alphabet[..40].to_vec(), "note": "generated product alphabet, see about"}) },
+            "traces_replayed": r.stats.traces,
+            "maximal_traces": r.stats.maximal_traces,
+            "steps_compared": r.stats.steps,
+            "prefix_steps_reexecuted_by_parallel_tasks": r.stats.prefix_steps,
+            "steps_returning_data": r.stats.data_some,
+            "steps_with_full_state_comparison": r.stats.full_compares,
+            "steps_where_both_runtimes_stayed_bit_identical_to_the_compared_parent_state": r.stats.steps.saturating_sub(r.stats.full_compares),
+            "fresh_runtime_crosscheck": {"depth": fdepth, "traces": ft, "steps": fs},
+            "restrictions": sc.notes,
+            "agree": r.disagreements.is_empty() && fd.is_none(),
+            "wall_s": (r.wall_s * 100.0).round() / 100.0,
+        }));
+        if let Some((t, d)) = fd {
+            all_dis.push(engine::Disagreement {
+                scenario: sc.name.clone(),
+                step: t.len(),
+                what: format!("(fresh-runtime cross-check, no snapshot/restore) {d}"),
+                confirmed_on_fresh_runtimes: Some(true),
+                actions: vec![],
+                trace: t,
+            });
+        }
+        all_dis.extend(r.disagreements);
+    }
+    rep.alphabet = "per scenario, see coverage.scenarios[*].alphabet; every sequence over the alphabet up to the scenario's depth is replayed (no sampling, no state de-duplication)".into();
+    rep.oracle = format!("agreement of the mc kernel with cw-multi-test 2.0.0. Compared {COMPARED} Not compared: {NOT_COMPARED}.");
+    rep.bounds = "all action sequences of length 1..=depth per scenario (DFS with shared prefixes: the kernel World is cloned and the App's whole storage + block are snapshotted/restored around every action, so every distinct sequence is executed exactly once per runtime; success/failure and data are compared after every step, the full state comparison is skipped only when both runtimes are bit-for-bit back in the parent state that was already compared — i.e. after correctly rolled back refusals; the tree is split over rayon tasks by its first two actions, each task on fresh runtimes); additionally every maximal trace of a reduced depth is replayed on fresh runtimes without any restore".into();
+    rep.assumptions = vec![
+        "cw-multi-test 2.0.0 is the reference for dispatch, sub-message/reply, rollback, data and bank semantics (it is the runtime the repository's own integration tests run on)".into(),
+        "contract addresses are identical in both runtimes: multi-test derives them (default generator: code id + instance count) and the kernel installs its instance at the same address; users are MockApi::addr_make addresses; block height/time/chain id (mc-chain) are set identically; both pass Env.transaction = Some(index 0)".into(),
+        "multi-test idiosyncrasies deliberately NOT exercised (documented, restricted away): Reply.payload (multi-test 2.0.0 always passes an empty payload; the kernel forwards SubMsg.payload like wasmd 2.x) — the stubs never set a payload; bank sends to syntactically invalid addresses (multi-test does not validate the recipient, the kernel and a real chain do); responses with empty attribute values / keys starting with '_' / 1-letter event types (multi-test rejects them, the kernel does not look at attributes); data = Some(empty) (the protobuf wrapper makes it None at top level in multi-test); duplicate denoms inside one funds list".into(),
+        "not covered: WasmMsg::Instantiate/Migrate/UpdateAdmin, staking/distribution/gov/ibc messages (no contract of the repository's cross-contract families emits them towards the kernel's dispatcher), gas limits, the IBC driver (cw-multi-test has no IBC entry points)".into(),
+    ];
+    rep.extra.insert("what_is_compared".into(), json!(COMPARED));
+    rep.extra.insert("not_compared".into(), json!(NOT_COMPARED));
+    rep.extra.insert("scenarios".into(), json!(per));
+    rep.extra.insert("traces_replayed".into(), json!(traces));
+    rep.extra.insert("maximal_traces".into(), json!(maximal));
+    rep.extra.insert("steps_compared".into(), json!(steps));
+    rep.extra.insert("fresh_runtime_crosscheck".into(), json!({"traces": fx_traces, "steps": fx_steps}));
+    rep.extra.insert("kernel_traces_cross_validated".into(), json!(traces + fx_traces));
+    rep.extra.insert("samples".into(), json!(samples));
+    rep.extra.insert("reference_runtime".into(), json!("cw-multi-test 2.0.0"));
+    rep.extra.insert(
+        "disagreements".into(),
+        json!(all_dis
+            .iter()
+            .map(|d| json!({
+                "scenario": d.scenario, "step": d.step, "what": d.what,
+                "confirmed_on_fresh_runtimes": d.confirmed_on_fresh_runtimes,
+                "trace_indices": d.trace, "trace": d.actions,
+            }))
+            .collect::<Vec<_>>()),
+    );
+    rep.extra.insert(
+        "verdict".into(),
+        json!(if all_dis.is_empty() { "runtimes agree on every step of every enumerated trace" } else { "DISAGREEMENT (machinery error, exit 2)" }),
+    );
+    let n_dis = all_dis.len();
+    let code = rep.finish();
+    println!(
+        "kernel-diff: {} scenarios, {} traces replayed ({} maximal), {} steps compared, {} further traces / {} steps on fresh runtimes",
+        scs.len(),
+        traces,
+        maximal,
+        steps,
+        fx_traces,
+        fx_steps
+    );
+    if n_dis == 0 {
+        if code != 0 {
+            return 2;
+        }
+        println!("kernel-diff: kernel and cw-multi-test agree on every step of every enumerated trace");
+        return 0;
+    }
+    for d in &all_dis {
+        eprintln!(
+            "machinery error: KERNEL-DIFF DISAGREEMENT scenario={} step={} (confirmed on fresh runtimes: {:?})\n  what: {}\n  trace:",
+            d.scenario, d.step, d.confirmed_on_fresh_runtimes, d.what
+        );
+        for (i, a) in d.actions.iter().enumerate() {
+            eprintln!("    {}. {}", i + 1, a);
+        }
+    }
+    eprintln!("machinery error: kernel and cw-multi-test disagree ({} report(s) above); the kernel is not validated", n_dis);
+    2
 }
